@@ -95,7 +95,8 @@ class _Builder:
             body_out = self.seq(s.body, [(t, True)])
             self.loop_stack.pop()
             self.connect(body_out, t)
-            out = self.seq(s.orelse, [(t, False)])
+            always = isinstance(s.test, ast.Constant) and bool(s.test.value) is True
+            out = [] if always else self.seq(s.orelse, [(t, False)])     # `while True:` is left only by break / return / raise
             return out + brk
         if isinstance(s, (ast.For, ast.AsyncFor)):
             f = g._new('for', s)
@@ -106,7 +107,10 @@ class _Builder:
             body_out = self.seq(s.body, [(f, 'iter')])
             self.loop_stack.pop()
             self.connect(body_out, f)
-            out = self.seq(s.orelse, [(f, 'done')])
+            it = s.iter
+            infinite = isinstance(it, ast.Call) and ((isinstance(it.func, ast.Attribute) and it.func.attr in ('count', 'cycle', 'repeat') and isinstance(it.func.value, ast.Name)
+                                                      and it.func.value.id == 'itertools' and not (it.func.attr == 'repeat' and len(it.args) > 1)))
+            out = [] if infinite else self.seq(s.orelse, [(f, 'done')])   # itertools.count(): the iterator is never exhausted
             return out + brk
         if isinstance(s, (ast.With, ast.AsyncWith)):
             w = g._new('with', s)
@@ -215,7 +219,7 @@ def collect(g: CFG, init, transfer, max_states=20000):
     return at, exit_by_label
 
 
-def must_forward(g: CFG, gen, universe=None):
+def must_forward(g: CFG, gen, universe=None, edge_ok=None):
     """Must (all-paths) forward analysis: facts = frozenset; join = intersection.
     gen(node, label_out) -> set of facts established when leaving node along label_out.
     Returns IN sets per node id (facts that hold on every path reaching the node)."""
@@ -230,6 +234,8 @@ def must_forward(g: CFG, gen, universe=None):
         if cur is TOP:
             continue
         for succ, label in node.succ:
+            if edge_ok is not None and not edge_ok(node, label):
+                continue
             out = cur | frozenset(gen(node, label))
             old = IN[succ]
             new = out if old is TOP else (old & out)
